@@ -98,6 +98,21 @@ func (store *memoryStore) SaveMessageAndIncrNextSenderMsgSeqNum(seqNum int, msg 
 }
 
 func (store *memoryStore) IterateMessages(beginSeqNum, endSeqNum int, cb func([]byte) error) error {
+	// Only numbers that can be stored are visited: a range taken from the wire (ResendRequest) may
+	// start at a hugely negative number or end far beyond the last message.
+	if beginSeqNum < 1 {
+		beginSeqNum = 1
+	}
+	highest := 0
+	for seqNum := range store.messageMap {
+		if seqNum > highest {
+			highest = seqNum
+		}
+	}
+	if endSeqNum > highest {
+		endSeqNum = highest
+	}
+
 	for seqNum := beginSeqNum; seqNum <= endSeqNum; seqNum++ {
 		if m, ok := store.messageMap[seqNum]; ok {
 			if err := cb(m); err != nil {
